@@ -226,6 +226,75 @@ SUMMARIES: dict[str, Summary] = {
     "builtins.OSError": Summary(NONE, "constructor"),
 }
 
+for _m in ("get", "items", "values", "keys", "copy", "setdefault", "update", "clear", "pop"):
+    for _base in ("typing.MutableMapping", "typing.Mapping", "collections.abc.MutableMapping", "collections.abc.Mapping"):
+        if f"builtins.dict.{_m}" in SUMMARIES:
+            SUMMARIES.setdefault(f"{_base}.{_m}", SUMMARIES[f"builtins.dict.{_m}"])
+SUMMARIES.update(
+    {
+        "builtins.dict.popitem": Summary([KE], "popitem() on an empty dict"),
+        "typing.MutableMapping.popitem": Summary([KE], "popitem() on an empty dict"),
+        "builtins.list.pop": Summary([IE], "pop from empty list"),
+        "builtins.list.clear": Summary(NONE, "total"),
+        "builtins.list.copy": Summary(NONE, "total"),
+        "builtins.list.insert": Summary(NONE, "total"),
+        "builtins.list.index": Summary([VE], "value not in list"),
+        "builtins.list.remove": Summary([VE], "value not in list"),
+        "builtins.list.sort": Summary(NONE, "homogeneous elements (A3)"),
+        "builtins.set.remove": Summary([KE], "element not in set"),
+        "builtins.set.update": Summary(NONE, "total"),
+        "builtins.frozenset": Summary(NONE, "frozenset(iterable of hashables)"),
+        "builtins.reversed": Summary(NONE, "total for sequences"),
+        "builtins.abs": Summary(NONE, "total for numbers"),
+        "builtins.any": Summary(NONE, "total"),
+        "builtins.all": Summary(NONE, "total"),
+        "builtins.sum": Summary(NONE, "numbers (A3)"),
+        "builtins.range": Summary(NONE, "int arguments (A3)"),
+        "builtins.hasattr": Summary(NONE, "total"),
+        "builtins.id": Summary(NONE, "total"),
+        "builtins.iter": Summary(NONE, "iterable argument (A3)"),
+        "builtins.str.find": Summary(NONE, "total"),
+        "builtins.str.index": Summary([VE], "substring not found"),
+        "builtins.str.splitlines": Summary(NONE, "total"),
+        "builtins.str.title": Summary(NONE, "total"),
+        "builtins.str.zfill": Summary(NONE, "total"),
+        "builtins.str.isnumeric": Summary(NONE, "total"),
+        "builtins.str.removeprefix": Summary(NONE, "total"),
+        "builtins.str.removesuffix": Summary(NONE, "total"),
+        "builtins.bytes.rstrip": Summary(NONE, "total"),
+        "builtins.bytes.strip": Summary(NONE, "total"),
+        "builtins.bytes.split": Summary(NONE, "total for non-empty separator"),
+        "builtins.bytes.startswith": Summary(NONE, "total"),
+        "builtins.bytes.endswith": Summary(NONE, "total"),
+        "time.gmtime": Summary(NONE, "no argument: current time"),
+        "time.monotonic": Summary(NONE, "total"),
+        "time.mktime": Summary([OFE, VE], "out-of-range struct_time"),
+        "time.strftime": Summary(NONE, "valid format literal"),
+        "datetime.datetime.now": Summary(NONE, "total"),
+        "datetime.datetime.timestamp": Summary([OFE, OSE], "platform range"),
+        "asyncio.tasks.wait_for": Summary(["builtins.TimeoutError"], "asyncio.wait_for raises TimeoutError; the awaited coroutine's own exceptions are attributed at its call site"),
+        "asyncio.tasks.shield": Summary(NONE, "exceptions of the inner awaitable are attributed at its call site"),
+        "asyncio.tasks.wait": Summary(NONE, "does not raise the tasks' exceptions"),
+        "asyncio.events.get_running_loop": Summary(["builtins.RuntimeError"], "no running loop (never inside a coroutine)"),
+        "asyncio.locks.Lock": Summary(NONE, "constructor"),
+        "asyncio.locks.Event": Summary(NONE, "constructor"),
+        "asyncio.queues.LifoQueue": Summary(NONE, "constructor"),
+        "asyncio.queues.PriorityQueue": Summary(NONE, "constructor"),
+        "asyncio.queues.Queue.get_nowait": Summary(["asyncio.queues.QueueEmpty"], "empty queue"),
+        "asyncio.queues.Queue.put": Summary(NONE, "only cancellation"),
+        "asyncio.queues.Queue.qsize": Summary(NONE, "total"),
+        "asyncio.queues.Queue.empty": Summary(NONE, "total"),
+        "os.path.exists": Summary(NONE, "total for str paths"),
+        "os.path.join": Summary(NONE, "total for str paths"),
+        "os.path.dirname": Summary(NONE, "total"),
+        "os.path.basename": Summary(NONE, "total"),
+        "copy.copy": Summary(NONE, "shallow copy of repo objects"),
+        "copy.deepcopy": Summary(NONE, "deep copy of repo objects"),
+        "tempfile.mkstemp": Summary([OSE], "file creation"),
+        "builtins.open": Summary([OSE], "file open"),
+    }
+)
+
 # BaseException-only classes are outside the escape analysis
 BASE_ONLY = {
     "asyncio.exceptions.CancelledError",
@@ -241,6 +310,9 @@ FALLBACK_MRO = {
     "builtins.UnicodeDecodeError": ["builtins.UnicodeDecodeError", "builtins.UnicodeError", "builtins.ValueError", "builtins.Exception", "builtins.BaseException", "builtins.object"],
     "builtins.OverflowError": ["builtins.OverflowError", "builtins.ArithmeticError", "builtins.Exception", "builtins.BaseException", "builtins.object"],
     "builtins.StopIteration": ["builtins.StopIteration", "builtins.Exception", "builtins.BaseException", "builtins.object"],
+    "builtins.TimeoutError": ["builtins.TimeoutError", "builtins.OSError", "builtins.Exception", "builtins.BaseException", "builtins.object"],
+    "builtins.ZeroDivisionError": ["builtins.ZeroDivisionError", "builtins.ArithmeticError", "builtins.Exception", "builtins.BaseException", "builtins.object"],
+    "asyncio.queues.QueueEmpty": ["asyncio.queues.QueueEmpty", "builtins.Exception", "builtins.BaseException", "builtins.object"],
     "builtins.AssertionError": ["builtins.AssertionError", "builtins.Exception", "builtins.BaseException", "builtins.object"],
     "awesomeversion.exceptions.AwesomeVersionCompareException": [
         "awesomeversion.exceptions.AwesomeVersionCompareException",
